@@ -143,6 +143,11 @@ func orderInsensitive(info *types.Info, f *ScopeFunc, body *ast.BlockStmt, loop 
 			}
 			switch x := st.(type) {
 			case *ast.AssignStmt:
+				for _, rhs := range x.Rhs {
+					if e := callEffects(f.Pkg, local, rhs); e != "" {
+						bad = e
+					}
+				}
 				for i, l := range x.Lhs {
 					switch lv := l.(type) {
 					case *ast.IndexExpr:
@@ -177,6 +182,9 @@ func orderInsensitive(info *types.Info, f *ScopeFunc, body *ast.BlockStmt, loop 
 				if x.Init != nil {
 					visit([]ast.Stmt{x.Init})
 				}
+				if e := callEffects(f.Pkg, local, x.Cond); e != "" {
+					bad = e
+				}
 				visit(x.Body.List)
 				switch e := x.Else.(type) {
 				case *ast.BlockStmt:
@@ -184,7 +192,13 @@ func orderInsensitive(info *types.Info, f *ScopeFunc, body *ast.BlockStmt, loop 
 				case *ast.IfStmt:
 					visit([]ast.Stmt{e})
 				}
-			case *ast.ReturnStmt, *ast.BranchStmt, *ast.DeclStmt, *ast.EmptyStmt:
+			case *ast.ReturnStmt:
+				for _, res := range x.Results {
+					if e := callEffects(f.Pkg, local, res); e != "" {
+						bad = e
+					}
+				}
+			case *ast.BranchStmt, *ast.DeclStmt, *ast.EmptyStmt:
 			case *ast.IncDecStmt:
 				// counters are order-insensitive
 			case *ast.ExprStmt:
@@ -212,6 +226,14 @@ func orderInsensitive(info *types.Info, f *ScopeFunc, body *ast.BlockStmt, loop 
 			case *ast.BlockStmt:
 				visit(x.List)
 			case *ast.SwitchStmt:
+				if x.Init != nil {
+					visit([]ast.Stmt{x.Init})
+				}
+				if x.Tag != nil {
+					if e := callEffects(f.Pkg, local, x.Tag); e != "" {
+						bad = e
+					}
+				}
 				for _, cl := range x.Body.List {
 					visit(cl.(*ast.CaseClause).Body)
 				}
